@@ -109,6 +109,14 @@ def _r24(prop, result, failure, finding):
             and any(c[0] == 'apply' for c in result['prog'][:failure['at'] + 1]))
 
 
+@matcher('copy_rehangs_group_carrier')
+def _r26(prop, result, failure, finding):
+    # the copy lists the same operations in another order because an operation with a group relation is hung under the member that
+    # ends latest NOW, the original under the member that ended latest THEN (R23); needs a change of durations in between: an
+    # unrolling, a duration setting, or an addition to a member sub-circuit
+    return failure.get('probe') == 'C05' and bool(failure.get('group_parent_stale'))
+
+
 @matcher('cycle_after_unroll_then_flatten')
 def _r14(prop, result, failure, finding):
     if failure.get('what') != 'listing or time query recurses without bound':
